@@ -24,6 +24,13 @@ from sa.model import AnalysisError, NOFOLD
 from sa.mutate import Mutant
 
 PROP = 'C26'
+
+META = dict(
+    technique='static visitor dispatch totality + intra-procedural may-flow (taint) from node fields to the def/use sinks; finite-domain evaluation of the intent filters',
+    level='Decides structural necessary conditions of the over-approximation: every IR node class (47) is handled by a dataflow handler that funnels into visit_Node; every expression/body field flows into uses/defines; the intent filters cover {none,in,out,inout}; sequencing (uses before defines) and union merges. Does NOT decide aliasing, array sections or interprocedural effects.',
+    note='May-flow is flow-insensitive inside one handler; exemption table (fields naming entities) in sa/rules/c26.py.',
+    ref='DESIGN.md section 3, C26',
+)
 FILE = 'loki/analyse/dataflow_analysis.py'
 
 EXEMPT = {
